@@ -123,6 +123,8 @@ enum
     CL_OPEN_REFUSED,
     CL_ABORT_WHILE_OTHER_IN_STOP,
     CL_REAL_CAMERA,
+    CL_DOUBLE_MAP_REFUSED,
+    CL_LATE_UNMAP,
 };
 
 const VhSpec kSpec = {
@@ -136,7 +138,7 @@ const VhSpec kSpec = {
       "monitor_first_used_in_later_acquisition", "client_holds_region", "abort", "abort_while_worker_blocked", "abort_while_client_mapped",
       "abort_from_other_thread", "trigger_mode", "averaging", "averaging_2_windows", "fault_camera_frame", "fault_storage_append", "fault_start",
       "fault_fired", "fault_while_source_blocked", "shutdown_reinit", "start_while_running", "device_switch", "stream_toggled", "camera_no_frame_returns",
-      "hardware_id_gaps", "pct_schedule", "preemptions", "step_limit_inconclusive", "configure_while_running", "poll_then_continue_without_stop", "edge_preemptions", "frame_sizes_vary_within_acquisition", "device_open_refused_during_configure", "abort_from_other_thread_while_first_is_inside_stop", "shipped_simulated_camera", nullptr },
+      "hardware_id_gaps", "pct_schedule", "preemptions", "step_limit_inconclusive", "configure_while_running", "poll_then_continue_without_stop", "edge_preemptions", "frame_sizes_vary_within_acquisition", "device_open_refused_during_configure", "abort_from_other_thread_while_first_is_inside_stop", "shipped_simulated_camera", "client_maps_twice_without_unmap_refused", "client_unmaps_late_after_abort", nullptr },
     { "C04 non-trivial: a finite acquisition completed with >=3 wraps of the sink ring AND (sink caught up at a wrap, or source blocked on a full ring, or a monitor lagging >= 1 frame, or write delay > 0)",
       "C05 non-trivial: image bytes % 8 != 0 AND a packet starting right after a wrap or after a partial client consume",
       "C06 non-trivial: >=2 acquisitions AND the monitor registered AND (partial consume, or hold while the ring filled, or first registration in a later acquisition)",
@@ -156,6 +158,7 @@ struct StreamCfg
     uint32_t w = 4, h = 3;
     SampleType type = SampleType_u8;
     int nframes = 5; // <0: infinite
+    int huge = 0;    // with nframes < 0: 1 = 2^32 + 3 frames requested, 2 = 2^40 + 1 (finite, but never reached in a case)
     uint32_t period_us = 1000;
     bool trigger = false;
     int noframe_every = 0, gap_every = 0;
@@ -222,7 +225,10 @@ struct Ctx
     int f_client = -1, f_other = -1;
     bool client_done = false, other_done = true;
     bool in_stop_or_abort = false;
-    bool in_stop_now = false; // client 1 is inside a plain acquire_stop that waits for the acquisition to complete
+    bool in_stop_now = false;
+    size_t lap_origin = 0;
+    unsigned double_map_attempts = 0;
+    unsigned late_unmaps = 0; // client 1 is inside a plain acquire_stop that waits for the acquisition to complete
     // configuration
     StreamCfg cur[2];           // as decoded so far (tokens)
     StreamCfg applied[2];       // last successfully configured
@@ -404,6 +410,10 @@ check_storage_vs_camera(Ctx& x, AcqRec& a, const char* prop, bool expect_complet
 {
     if (x.c.ended || !a.store || !a.cam || a.cfg.avg >= 2)
         return;
+    // a complete, fault-free finite acquisition owes C04 whatever happened before it (an earlier abort or
+    // device fault makes it C07's / C09's "later acquisition" as well): in runs made for C04 it counts for C04
+    if (expect_complete && !prefix_only && !a.fault_expected && !a.ended_by_abort && vh_focus && !strcmp(vh_focus, "C04"))
+        prop = "C04";
     std::vector<vmock::Delivered> del = delivered_of(a.cam, a.cam_run);
     auto it = a.store->bytes_by_run.find(a.store_run);
     static const std::vector<uint8_t> none;
@@ -668,7 +678,7 @@ do_configure(Ctx& x, const StreamCfg cfg_in[2])
         v.camera.settings.input_triggers.frame_start.enable = c.trigger;
         memset(&v.storage.settings, 0, sizeof v.storage.settings);
         v.storage.write_delay_ms = c.write_delay_ms;
-        v.max_frame_count = c.nframes < 0 ? (uint64_t)-1 : (uint64_t)c.nframes;
+        v.max_frame_count = c.nframes >= 0 ? (uint64_t)c.nframes : c.huge == 1 ? (1ull << 32) + 3 : c.huge == 2 ? (1ull << 40) + 1 : (uint64_t)-1;
         v.frame_average_count = (uint32_t)c.avg;
     }
     x.c.trace("client: CONFIGURE  s0=%s cam%d->store%d %ux%u %s n=%d avg=%d period=%uus trig=%d wdelay=%g sdelay=%g fault=%d@%d | s1=%s cam%d->store%d %ux%u %s n=%d avg=%d",
@@ -835,7 +845,18 @@ monitor_after_end(Ctx& x)
     for (int s = 0; s < 2; ++s) {
         Mon& m = x.mon[s];
         m.known = false;
+        if (m.mapped && x.rt && !x.c.ended && (++x.late_unmaps & 1)) {
+            // the client did not know about the stop / abort (another thread, a GUI button) and now releases
+            // the region it believes it still holds: after the flush this must be a no-op
+            size_t bytes = 0;
+            for (size_t fsz : m.frame_sizes)
+                bytes += fsz;
+            x.c.cls(CL_LATE_UNMAP);
+            x.c.trace("client: UNMAP stream %d (late: the region was already released by stop/abort) %zu bytes", s, bytes);
+            acquire_unmap_read(x.rt, (uint32_t)s, bytes);
+        }
         m.mapped = false; // stop/abort flush the monitor
+        m.held.clear();
         m.frame_sizes.clear();
     }
 }
@@ -943,8 +964,21 @@ void
 do_map(Ctx& x, int s)
 {
     Mon& m = x.mon[s];
-    if (m.mapped || x.c.ended || !x.rt)
+    if (x.c.ended || !x.rt)
         return;
+    if (m.mapped) {
+        // A second map without an unmap is a client error the runtime refuses; the refusal must change
+        // nothing: the region stays valid, the next unmap / map behave as if it had not happened.
+        if (!x.mon_disabled[s] && x.running && !m.frame_sizes.empty()) { // (an empty map leaves the reader unmapped)
+            VideoFrame *b2 = nullptr, *e2 = nullptr;
+            AcquireStatusCode r2 = acquire_map_read(x.rt, (uint32_t)s, &b2, &e2);
+            x.c.cls(CL_DOUBLE_MAP_REFUSED);
+            x.c.trace("client: MAP stream %d again without unmap -> %s", s, r2 == AcquireStatus_Ok ? "Ok" : "refused");
+            if (r2 == AcquireStatus_Ok)
+                x.c.fail("C06", "double-map-accepted", "ok", "stream %d: acquire_map_read succeeded although the client still holds a mapped region", s);
+        }
+        return;
+    }
     if (x.mon_disabled[s]) {
         // monitoring is not judged until the next real stop (nothing was flushed after the acquisition
         // that ended without one) -- but a reader that is registered in the runtime must keep consuming,
@@ -1155,6 +1189,11 @@ drain_monitor(Ctx& x, int s)
     do_map(x, s);
     if (x.c.ended)
         return;
+    if (x.mon[s].mapped && !x.mon[s].frame_sizes.empty() && (++x.double_map_attempts % 7 == 3)) {
+        do_map(x, s); // a second map without unmap (refused)
+        if (x.c.ended)
+            return;
+    }
     size_t nf = x.mon[s].frame_sizes.size();
     unsigned sel = 0; // everything
     if (x.client_style == 1 && nf >= 2)
@@ -1182,6 +1221,24 @@ do_stop_when_done(Ctx& x)
         infinite |= x.acqs[ai].cfg.nframes < 0;
     if (infinite) {
         // stop means "wait for completion": on an infinite acquisition only abort ends it
+        bool plain = x.other_done && !x.aborted_current && !x.disrupted;
+        for (size_t ai : x.cur_acqs) {
+            const AcqRec& a = x.acqs[ai];
+            plain &= a.cfg.nframes < 0 && !a.cfg.trigger && !a.cfg.fault_site && !a.start_failed && !x.mon[a.stream].registered;
+        }
+        if (plain) {
+            // ... and it must not end by itself either: 2^32+3 and 2^40+1 frames are as endless as "no limit"
+            sleep_ms(90.0f);
+            if (!x.c.ended && acquire_get_state(x.rt) != DeviceState_Running) {
+                uint64_t got = 0;
+                for (size_t ai : x.cur_acqs)
+                    if (x.acqs[ai].cam)
+                        got += x.acqs[ai].cam->k;
+                x.c.fail("C04", "ended-early", "practically-endless-frame-count",
+                         "an acquisition with a practically endless frame count (no limit, 2^32+3 or 2^40+1) ended by itself after %llu frames", (unsigned long long)got);
+                return;
+            }
+        }
         x.c.trace("client: (infinite acquisition) ABORT");
         x.in_stop_or_abort = true;
         acquire_abort(x.rt);
@@ -1546,7 +1603,11 @@ client_main(void*)
                 if (x.running)
                     acquire_execute_trigger(x.rt, op.t.a & 1);
                 break;
-            case K_MAP: do_map(x, op.t.a & 1); break;
+            case K_MAP:
+                do_map(x, op.t.a & 1);
+                if (!x.c.ended && x.mon[op.t.a & 1].mapped && (i % 3 == 0))
+                    do_map(x, op.t.a & 1); // ... and once more without unmap: must be refused, harmlessly
+                break;
             case K_UNMAP: do_unmap(x, op.t.a & 1, op.t.b); break;
             case K_SLEEP: {
                 bool holding = x.mon[0].mapped || x.mon[1].mapped;
@@ -1614,6 +1675,10 @@ vh_channel_new(struct channel* self, size_t requested)
         cap = unit + 8;
     (void)requested;
     channel_new(self, cap);
+    // The origin of the lap counter is arbitrary (a runtime that has streamed for days has a large one and
+    // nothing resets it): start near 2^8, 2^16 or 2^32 laps in some cases.  No reader is registered yet, so
+    // this is the state "that many laps written, everything consumed".
+    self->cycle = x.lap_origin;
     Ring& r = is_filter ? x.ring_filter[stream] : x.ring_sink[stream];
     r.ch = self;
     r.base = self->data;
@@ -1685,6 +1750,7 @@ vh_run(const VhTok* tape, size_t n, VhReport* rep)
                 cur[s].w = dim(t.b);
                 cur[s].h = dim(t.c);
                 cur[s].nframes = (t.d % 16 == 15) ? -1 : 1 + t.d % 24;
+                cur[s].huge = (t.d >> 4) % 3; // which kind of "practically endless"
                 break;
             }
             case K_PACE: {
@@ -1837,6 +1903,10 @@ vh_run(const VhTok* tape, size_t n, VhReport* rep)
         x.filter_factor = f[(h >> 8) % 8];
     }
 
+    if (n) {
+        static const size_t origins[8] = { 0, 0, 0, 250, 65530, 4294967290ull, 250, 65530 };
+        x.lap_origin = origins[vh_mix64(tape[0].c * 2654435761u + tape[0].d) % 8];
+    }
     x.f_client = vsim::spawn(client_main, nullptr, "client");
     int blocked = -1;
     // Hang inside acquire_stop / acquire_abort: the client is in there and for 2 s of virtual time
